@@ -6,9 +6,10 @@ COMPONENTS = ["s_connectivity"]
 T4 = ["Connectivity"]
 PROOF_MODULES = ["GrpcProofs.Properties.C30"]
 THEOREMS = ["GrpcProofs.C30." + t for t in (
-    "nothing_leaves_shutdown", "channel_never_leaves_shutdown",
+    "state_order_matches_source", "nothing_leaves_shutdown", "channel_never_leaves_shutdown",
     "ready_only_from_connecting_partial", "ready_only_from_connecting_counterexample",
-    "tf_only_to_idle_or_shutdown_partial", "tf_to_idle_only_after_backoff", "tf_only_to_idle_or_shutdown_counterexample",
+    "tf_only_to_idle_or_shutdown_partial", "tf_to_idle_only_after_backoff", "backoff_left_only_by_timer_or_reset",
+    "tf_only_to_idle_or_shutdown_counterexample",
     "getState_is_last_published",
     "wait_returns_true_if_differs", "wait_true_only_if_differed", "wait_false_only_if_ctx_done",
     "wrong_order_misses_a_change",
